@@ -278,9 +278,27 @@ pub fn gen_cases(cfg: &RunCfg) -> Vec<Case> {
         cases.push(Case {
             asn: format!("D{j} ::= SEQUENCE {{ f {ty} DEFAULT {notation} }}"),
             site: Site::DefaultFn(format!("d{j}_f_default")),
-            src,
+            src: src.clone(),
             kind,
         });
+        // the same DEFAULT three anonymous levels down (CHOICE in CHOICE in SEQUENCE, SET in CHOICE in SEQUENCE):
+        // values are linked with their types at every depth
+        let k = next();
+        if k % 3 == 0 {
+            cases.push(Case {
+                asn: format!("N{k} ::= CHOICE {{ a CHOICE {{ b SEQUENCE {{ f {ty} DEFAULT {notation} }}, c NULL }}, d NULL }}"),
+                site: Site::DefaultFn(format!("n{k}_ab_f_default")),
+                src: src.clone(),
+                kind,
+            });
+        } else if k % 3 == 1 {
+            cases.push(Case {
+                asn: format!("N{k} ::= SEQUENCE {{ i SET {{ j CHOICE {{ k SEQUENCE {{ f {ty} DEFAULT {notation} }} }} }} }}"),
+                site: Site::DefaultFn(format!("n{k}_ijk_f_default")),
+                src,
+                kind,
+            });
+        }
     };
     // integers: the boundary set of C06 in [-2^127, 2^127)
     let mut ints: Vec<i128> = super::c06::boundary_set();
@@ -494,7 +512,7 @@ fn collect_consts(m: &ModuleFacts, generated: &str) -> (BTreeMap<String, syn::Ex
 pub fn run(cfg: &RunCfg) -> Report {
     let mut rep = Report::new(
         "C07",
-        "integers over the C06 boundary set and ±2^127 extremes (direct, through type-reference chains, named-number types), booleans, NULL, named numbers, enumerals, character strings (empty, doubled quotes, multi-byte) on five string types, bstring/hstring of 0..64 bits for BIT STRING, hex/binary OCTET STRING, every hex digit, all 64 subsets of a 6-name named-bit list declared out of order, OIDs of 2..11 arcs in number / name / name(number) form incl. every well-known root and second-level name, well-known names reused with other numbers further down, and a local value reference, CHOICE / SEQUENCE / SEQUENCE OF values, value-reference chains — each as value assignment and as DEFAULT where supported. Observed: const/static initialisers and *_default bodies evaluated symbolically into abstract values",
+        "integers over the C06 boundary set and ±2^127 extremes (direct, through type-reference chains, named-number types), booleans, NULL, named numbers, enumerals, character strings (empty, doubled quotes, multi-byte) on five string types, bstring/hstring of 0..64 bits for BIT STRING, hex/binary OCTET STRING, every hex digit, all 64 subsets of a 6-name named-bit list declared out of order, OIDs of 2..11 arcs in number / name / name(number) form incl. every well-known root and second-level name, well-known names reused with other numbers further down, and a local value reference, CHOICE / SEQUENCE / SEQUENCE OF values, value-reference chains — each as value assignment and as DEFAULT where supported, the DEFAULT also three anonymous levels down. Observed: const/static initialisers and *_default bodies evaluated symbolically into abstract values",
     );
     let cases: Vec<Case> = if let Some(r) = &cfg.replay {
         let r = r.get("case").unwrap_or(r);
@@ -560,6 +578,45 @@ pub fn run(cfg: &RunCfg) -> Report {
                 rep.evaluations += 1;
                 rep.count("compile-panic");
                 rep.sample(json!({"compile_panic": p, "asn1": cases[idx[0]].asn}));
+            }
+        }
+    }
+    // the TypeScript backend prints BIT STRING values as { value: "<hex>", length: <bits> }: the same abstract value
+    {
+        let bit_cases: Vec<usize> = meta.iter().filter(|(i, v)| v.starts_with("( bits") && matches!(cases[*i].site, Site::Const(_))).map(|(i, _)| *i).collect();
+        for chunk in bit_cases.chunks(100) {
+            let text = format!("C07-Mod DEFINITIONS AUTOMATIC TAGS ::= BEGIN\n{SUPPORT}{}\nEND\n", chunk.iter().map(|i| cases[*i].asn.clone()).collect::<Vec<_>>().join("\n"));
+            if let Outcome::Ok { generated, .. } = compile_ts(&[text]) {
+                let sq: String = generated.split_whitespace().collect::<Vec<_>>().join(" ");
+                let mut ts_reqs = Vec::new();
+                let mut ts_meta = Vec::new();
+                for i in chunk {
+                    let Site::Const(n) = &cases[*i].site else { continue };
+                    let name = n.to_lowercase();
+                    let Some(pos) = sq.find(&format!("export const {name} = {{ value: \"")) else { continue };
+                    let rest = &sq[pos + format!("export const {name} = {{ value: \"").len()..];
+                    let hexs: String = rest.chars().take_while(|c| *c != '"').collect();
+                    let len: usize = rest.split("length: ").nth(1).map(|x| x.chars().take_while(|c| c.is_ascii_digit()).collect::<String>()).and_then(|x| x.parse().ok()).unwrap_or(usize::MAX);
+                    let mut bits = String::from("x");
+                    for h in hexs.chars() {
+                        match h.to_digit(16) {
+                            Some(d) => bits.push_str(&format!("{d:04b}")),
+                            None => bits.push('?'),
+                        }
+                    }
+                    let obs = if len == usize::MAX || len + 1 > bits.len() || bits.contains('?') { format!("( unknown {} )", hex(&format!("{hexs}/{len}"))) } else { format!("( bits {} )", &bits[..len + 1]) };
+                    rep.count("typescript:bit-string-constant");
+                    ts_reqs.push(format!("c07 {} {}", cases[*i].src, obs));
+                    ts_meta.push((*i, obs, hexs, len));
+                }
+                if let Ok(ans) = run_driver(&ts_reqs) {
+                    for (a, (i, obs, hexs, len)) in ans.iter().zip(ts_meta.iter()) {
+                        let spec = a.split(' ').find_map(|t| t.strip_prefix("spec=")).unwrap_or("");
+                        if let Some(msg) = spec.strip_prefix("bad:") {
+                            rep.unsat("", false, json!({"why": format!("TypeScript constant {{ value: \"{hexs}\", length: {len} }}: {msg}"), "case": {"asn1": cases[*i].asn, "src": cases[*i].src, "observed": obs, "const": null, "default_fn": null, "kind": "typescript-bit-string"}}));
+                        }
+                    }
+                }
             }
         }
     }
